@@ -843,7 +843,17 @@ impl S3 for FileSystem {
         if let Ok(Some(metadata)) = self.load_metadata(&bucket, &key, Some(upload_id)).await {
             self.save_metadata(&bucket, &key, &metadata, None).await?;
             let _ = self.delete_metadata(&bucket, &key, Some(upload_id));
+        } else {
+            // an upload without metadata must not keep the metadata of the object it replaces
+            let metadata_path = self.get_metadata_path(&bucket, &key, None)?;
+            if metadata_path.exists() {
+                try_!(fs::remove_file(&metadata_path).await);
+            }
         }
+
+        // nor the checksums of the object it replaces
+        let info: InternalInfo = default();
+        self.save_internal_info(&bucket, &key, &info).await?;
 
         for (_, part_path, _) in &parts {
             try_!(fs::remove_file(part_path).await);
